@@ -6,6 +6,7 @@ import (
 	"time"
 
 	"github.com/zeromicro/go-zero/core/breaker"
+	"github.com/zeromicro/go-zero/core/stat"
 
 	"verifsim/simharness"
 	"verifsim/simrt"
@@ -88,6 +89,15 @@ type phase struct {
 }
 
 var runCounter int
+
+// The alert reporter is a stub (off).  With a reporter installed, stat.Report rate-limits its
+// alerts through a package-level LessExecutor ("once per 5 minutes" of go-zero's relative clock):
+// whether a rejection of this run takes the alert path (two more atomic operations, i.e.
+// scheduling points) would depend on the instant of the last alert of the *previous* run in the
+// same process, which breaks run independence (seen by --selftest).  go-zero's own "running under
+// go test" switch (flag.Lookup("test.v") in stat's init) no longer works: the testing flags are
+// registered after package initialisation.
+func init() { stat.SetReporter(nil) }
 
 var deltas = []time.Duration{0, -1, 1}
 
